@@ -244,11 +244,16 @@ def cached_stream(key, stream, n, tier, seed, extra_q=(), extra_args=()):
             return r
         r = run_stream(stream, n, tier, seed, work, extra_q=extra_q, extra_args=extra_args)
         r["cached"] = False
+        os.makedirs(cdir, exist_ok=True)
         json.dump(r, open(cfile, "w"))
-    # keep the cache small: drop other keys
+    # keep the cache small: drop the entries of other trees once they are old (another check may
+    # be using them right now)
     for d in glob.glob(os.path.join(BUILD, "cache", "*")):
-        if os.path.basename(d) != key:
-            shutil.rmtree(d, ignore_errors=True)
+        try:
+            if os.path.basename(d) != key and time.time() - os.path.getmtime(d) > 3 * 3600:
+                shutil.rmtree(d, ignore_errors=True)
+        except OSError:
+            pass
     return r
 
 
